@@ -90,6 +90,20 @@ end module beta
     !! a leaf
     integer :: q
   end type leaf_t
+  type stack
+    !! a type with an overloaded constructor; see [[shared]] and [[main]]
+    integer :: depth
+  end type stack
+  interface stack
+    !! constructor of [[stack]]
+    module procedure new_stack
+  end interface stack
+contains
+  function new_stack() result(s)
+    !! makes a [[stack]]
+    type(stack) :: s
+    s%depth = 0
+  end function new_stack
 end module base_a
 module base_b
   !! base b
@@ -138,9 +152,11 @@ P2 = {
     "src/three.f90": "subroutine same()\n!! external same\nend subroutine same\nprogram p\n!! prog\nuse one\nuse two, only: other\ncall other()\nend program p\n",
 }
 PROJECTS = {"P1": P1, "P2": P2}
+# unqualified references from the project-wide context; `stack` names a type and an interface, `same` several procedures
+FRONT = "Front page. [[stack]] [[root_t]] [[shared]] [[main]] [[gamma]] [[same]] [[other]] [[one]] [[nosuch]]\n"
 
 
-def snapshot(out: Path):
+def snapshot(out: Path, root=None):
     snap = {}
     for d, _, fs in os.walk(out):
         for f in fs:
@@ -148,7 +164,11 @@ def snapshot(out: Path):
             rel = p.relative_to(out).as_posix()
             if rel.startswith(("css/", "js/", "webfonts/", "search/tipuesearch")):
                 continue
-            snap[rel] = hashlib.sha1(p.read_bytes()).hexdigest()
+            data = p.read_bytes()
+            if root is not None:
+                # the location of the project is an input, not chance: scratch roots differ from run to run
+                data = data.replace(str(root).encode(), b"ROOT")
+            snap[rel] = hashlib.sha1(data).hexdigest()
     return snap
 
 
@@ -173,8 +193,8 @@ def build_once(pname, ch, opts, stale=None, perms=None):
         if stale == "other":
             fordrun.write_tree(root, {"doc/module/stale.html": "<html>stale</html>", "doc/src/old.f90": "! old", "doc/index.html": "old", "doc/extra/deep/file.txt": "x"})
         elif stale == "same":
-            r0 = fordrun.build(files, opts, stage="write", root=root, keep=True, proj_body="Front page.\n")
-        r = fordrun.build(files, opts, stage="write", root=root, keep=True, proj_body="Front page.\n")
+            r0 = fordrun.build(files, opts, stage="write", root=root, keep=True, proj_body=FRONT)
+        r = fordrun.build(files, opts, stage="write", root=root, keep=True, proj_body=FRONT)
         events = list(nd.EVENTS)
         return r, perm, events
     finally:
@@ -194,7 +214,7 @@ def explore_project(args):
         try:
             if r.error is not None or r.stage_reached != "write":
                 return ("error", repr(r.error) + r.log[-300:], perm, events)
-            snap = snapshot(r.out)
+            snap = snapshot(r.out, r.root)
             # the DOT sources handed to graphviz are output too (dot itself is stubbed in-process)
             p_ = r.project
             ents = list(p_.modules) + list(p_.submodules) + list(p_.types) + list(p_.procedures) + list(p_.programs) + list(p_.files)
@@ -279,16 +299,51 @@ def fresh_process_runs(st: Stats, pname, seeds, reps):
     shutil.rmtree(root, ignore_errors=True)
 
 
+class LabelChooser:
+    """replays recorded deviations by choice-point label (every other choice = default)."""
+
+    def __init__(self, devs):
+        self.devs = {l: c for l, c in devs}
+        self.trace = []
+
+    def choose(self, label, n):
+        c = self.devs.get(label, 0)
+        c = c if c < n else 0
+        self.trace.append((label, n, c))
+        return c
+
+
 def replay(path):
+    import difflib
     import json
-    from mc.explore import Chooser
 
     core.use_repo()
     rec = json.loads(open(path).read())
     i = rec["input"]
     print(i)
     print(rec["observed"])
-    return 1
+    if "deviations" not in i:
+        return 1
+    pname, optname = i["project"], i["options"]
+    perms = list(itertools.permutations(sorted(PROJECTS[pname])))
+    texts = []
+    for devs in ([], [tuple(d) for d in i["deviations"]]):
+        r, perm, events = build_once(pname, LabelChooser(devs), OPTS[optname], i.get("stale"), perms)
+        try:
+            texts.append({p.relative_to(r.out).as_posix(): p.read_text(errors="replace").replace(str(r.root), "ROOT")
+                          for p in r.out.rglob("*") if p.is_file() and p.suffix in (".html", ".json", ".js", ".gv")})
+        finally:
+            r.cleanup()
+    n = 0
+    for rel in sorted(set(texts[0]) | set(texts[1])):
+        a, b = texts[0].get(rel, ""), texts[1].get(rel, "")
+        if a != b and not rel.startswith(("css/", "js/", "search/tipuesearch")):
+            n += 1
+            print("=== differs:", rel)
+            for l in list(difflib.unified_diff(a.split("\n"), b.split("\n"), lineterm="", n=0))[:12]:
+                print("   ", l[:240])
+    print("REPRODUCED" if n else "not reproduced", n, "file(s) differ")
+    return 1 if n else 0
 
 
 OPTS = {
@@ -322,7 +377,7 @@ def main(tier, replay_path=None):
         snaps = {}
         for stale in (None, "other", "same"):
             r, _, _ = build_once(pname, None, OPTS["graph"], stale)
-            snaps[stale] = snapshot(r.out)
+            snaps[stale] = snapshot(r.out, r.root)
             r.cleanup()
             st.evaluations += 1
         for stale in ("other", "same"):
